@@ -260,6 +260,7 @@ func c08system(c *ctx) {
 			{{ID: "app0", Fds: []string{"permit out ip from 8.8.4.0/24 to assigned"}}, {ID: "app1", Fds: []string{"permit in udp from any to 1.1.1.1 53", "permit out tcp from 9.9.9.9 443 to assigned"}}},
 			{{ID: "app2", Fds: []string{"permit out udp from 10.20.0.0/16 53 to assigned"}}},
 			{{ID: "app0", Fds: []string{"permit out tcp from 93.184.216.34 80 to assigned"}}},
+			{}, // no Application ID's PFDs IE at all: the accepted request replaces the table by the empty one
 		}
 		use := func(a int) {
 			for _, id := range []string{"app0", "app1", "app2", "app9"} {
@@ -281,6 +282,17 @@ func c08system(c *ctx) {
 			use(a)
 			if r.Intn(3) == 0 {
 				use(1 - a) // the other association has its own table
+			}
+		}
+		// provisioned, then emptied: PDRs that name a formerly provisioned application must not get its filter any more
+		w.pfd(0, tables[0], false)
+		w.pfd(0, nil, false)
+		for _, id := range []string{"app0", "app1"} {
+			pdrs, fars, qers := w.genSession(0)
+			pdrs[1].App = strp(id)
+			w.nextCP++
+			if h, _ := w.est(0, w.nodes[0], w.nextCP, pdrs, fars, qers, "pfd-after-empty-"+id); h != nil {
+				w.del(0, h.up, "pfd")
 			}
 		}
 		w.close()
